@@ -61,6 +61,17 @@ fn increase_fd_limit() {
 #[cfg(not(unix))]
 fn increase_fd_limit() {}
 
+/// Read the TLS hosts settings file anew and apply it to the running endpoint
+fn reload_tls_hosts_settings(core: &Core, path: &str) -> Result<(), String> {
+    let content = std::fs::read_to_string(path)
+        .map_err(|e| format!("Couldn't read the TLS hosts settings file: {}", e))?;
+    let tls_hosts_settings: settings::TlsHostsSettings = toml::from_str(&content)
+        .map_err(|e| format!("Couldn't parse the TLS hosts settings file: {}", e))?;
+
+    core.reload_tls_hosts_settings(tls_hosts_settings)
+        .map_err(|e| format!("Couldn't apply new settings: {}", e))
+}
+
 fn main() {
     let args = clap::Command::new("VPN endpoint")
         .args(&[
@@ -253,15 +264,15 @@ fn main() {
                 sighup_listener.recv().await;
                 info!("Reloading TLS hosts settings");
 
-                let tls_hosts_settings: settings::TlsHostsSettings = toml::from_str(
-                    &std::fs::read_to_string(&tls_hosts_settings_path)
-                        .expect("Couldn't read the TLS hosts settings file"),
-                )
-                .expect("Couldn't parse the TLS hosts settings file");
-
-                core.reload_tls_hosts_settings(tls_hosts_settings)
-                    .expect("Couldn't apply new settings");
-                info!("TLS hosts settings are successfully reloaded");
+                // A failed reload must not take the endpoint down:
+                // it keeps serving with the settings it already has
+                match reload_tls_hosts_settings(&core, &tls_hosts_settings_path) {
+                    Ok(()) => info!("TLS hosts settings are successfully reloaded"),
+                    Err(e) => error!(
+                        "Failed to reload TLS hosts settings, the previous ones stay in force: {}",
+                        e
+                    ),
+                }
             }
         }
     };
